@@ -14,6 +14,8 @@ from ..lib import driver, gen, roadgen, ser
 
 ID = "C02"
 LEAN_MODULES = ["TakVerif.Props.C02"]
+# cross-operation sessions (lib/session.py): which operations this property judges
+SESSION = {"kinds": {"winner"}}
 RULE = (
     "one evaluation = one position run through Position.winner() AND Position.has_road() and through Impl.winner/"
     "Impl.hasRoad (one driver line). Positions: every position of random legal games (6 biased policies, sizes 3..8, "
@@ -303,18 +305,30 @@ def tie(ctx):
     # share of cases also put to the (slow, list-based) closure form of the specification
     spec_share = {3: 1.0, 4: 0.5, 5: 0.2, 6: 0.05, 7: 0.02, 8: 0.01}
     rnd = ctx.rng.random
+    kept = []  # live position objects of every size, asked again below in an order that mixes sizes
     for size, (nchains, ncons, ngames, nflat) in plan.items():
         sh = spec_share[size]
         for label, nt, ps in road_cases(ctx, size, nchains):
             pos = ser.parse_pos(ps.split(" "))
             t.add(label, nt, ps, impl_out(pos), rnd() < sh)
+            kept.append((label, ps, pos))
         for label, nt, ps in flat_cases(ctx, size, nflat):
             pos = ser.parse_pos(ps.split(" "))
             t.add(label, nt, ps, impl_out(pos), rnd() < sh)
+            kept.append((label, ps, pos))
         for label, nt, pos in constructed_cases(ctx, size, ncons):
             t.add(label, nt, ser.pos_str(pos), impl_out(pos), rnd() < sh)
         for label, nt, pos in game_cases(ctx, size, ngames):
             t.add(label, nt, ser.pos_str(pos), impl_out(pos), rnd() < sh)
+    # The same live objects again, sizes interleaved, in one interpreter: adjudication is a function
+    # of the position, whatever was adjudicated before it (scratch state shared between calls or
+    # between board sizes shows only here).  Several rounds, so that hundreds of calls lie between
+    # two questions about one board size.
+    for rnd_no in range(4 if ctx.thorough else 2):
+        order = list(kept)
+        ctx.rng.shuffle(order)
+        for label, ps, pos in order:
+            t.add("reask:" + label.split(":")[0], False, ps, impl_out(pos), False)
     if ctx.thorough:
         n = _exhaustive_3x3(ctx, t, "_adce", (6, 7), "5sym-a")
         n += _exhaustive_3x3(ctx, t, "_adfb", (8, 9), "5sym-b")
@@ -439,20 +453,32 @@ def search(ctx, divergences, broken):
                 ps, io, so = ps2, f[1], f[2]
         except Exception:
             pass
-        vs.append(
-            Violation(
-                key,
-                "on pos=[%s] winner()+has_road() give [%s] but the specification (Spec.outcome / Spec.roadAnswer) gives [%s] (%d such positions in this run)"
-                % (ps, io, so, len(lst)),
-                {"pos": ps, "impl": io, "spec": so},
-            )
-        )
+        rp = {"pos": ps, "impl": io, "spec": so}
+        what = "on pos=[%s] winner()+has_road() give [%s] but the specification (Spec.outcome / Spec.roadAnswer) gives [%s] (%d such positions in this run)" % (ps, io, so, len(lst))
+        try:
+            alone = failing(ps)
+        except Exception:
+            alone = None
+        if alone is None:
+            # asked on its own the position is adjudicated correctly: the wrong answer depends on
+            # what was adjudicated earlier in the same interpreter; the replay is the run itself
+            rp["history_dependent"] = True
+            rp["rerun"] = {"seed": ctx.seed, "tier": ctx.tier}
+            what += "; asked on its own the same position is adjudicated correctly - the answer depends on earlier calls in the same interpreter (replay = this run: VERIF_SEED=%d, tier %s)" % (ctx.seed, ctx.tier)
+        vs.append(Violation(key, what, rp))
     return vs
 
 
 def replay(ctx, data):
     r = data.get("replay", data)
     ps = r["pos"]
+    if r.get("history_dependent"):
+        import random
+
+        ctx.seed = r["rerun"]["seed"]
+        ctx.tier = r["rerun"]["tier"]
+        ctx.rng = random.Random(ctx.seed * 1000003 + sum(map(ord, ctx.prop)))
+        return search(ctx, tie(ctx), [])
     f = failing(ps)
     if f is None:
         return []
